@@ -782,9 +782,150 @@ fn seq_part(ctx: &Ctx, res: &mut PartResult, depth: usize, aggressive: bool, as_
     res.sample(json!({"sequence": ["ci.increment(3)", "flush", "flush", "flush", "ci.increment(3)", "flush"], "expected_ci": "3, 0, (nothing), 3"}));
 }
 
+/// E4, fault history on the stream transport: the agent accepts the connection and then does not read for a while, so a
+/// payload larger than the socket buffer is cut short by the write timeout; afterwards the agent reads everything from
+/// every connection it was given. Whatever the exporter does about the failed write (the code closes the connection and
+/// opens a new one), every byte stream the agent receives must be whole length-prefixed frames, each a well-formed
+/// message; only a stream the exporter has closed may end in a cut-off frame.
+fn stalled_agent_part(ctx: &Ctx, res: &mut PartResult) {
+    use std::io::Read;
+    res.engine = "E4 scripted fault history: stalled agent on the unix stream transport, payload larger than the socket buffer, write timeout".into();
+    let mut states = vcore::vseq::States::new();
+    for (timeout_ms, stall_ms) in [(100u64, 1200u64), (60, 700)] {
+        res.executions += 1;
+        let path = ctx.run_dir().join(format!("c10-stall-{}-{}.sock", std::process::id(), timeout_ms));
+        let _ = std::fs::remove_file(&path);
+        let cfg = json!({"stalled": true, "timeout_ms": timeout_ms, "stall_ms": stall_ms});
+        let l = match std::os::unix::net::UnixListener::bind(&path) {
+            Ok(l) => l,
+            Err(e) => {
+                res.error = Some(format!("bind: {}", e));
+                return;
+            }
+        };
+        l.set_nonblocking(true).unwrap();
+        let rec = match DogStatsDBuilder::default().with_remote_address(format!("unix://{}", path.display())).and_then(|b| b.with_maximum_payload_length(4 << 20)) {
+            Ok(b) => match b.with_flush_interval(Duration::from_millis(40)).with_write_timeout(Duration::from_millis(timeout_ms)).with_telemetry(false).with_histogram_sampling(true).with_histogram_reservoir_size(65536).build() {
+                Ok(r) => r,
+                Err(e) => {
+                    res.error = Some(format!("build: {}", e));
+                    return;
+                }
+            },
+            Err(e) => {
+                res.error = Some(format!("builder: {}", e));
+                return;
+            }
+        };
+        let h = rec.register_histogram(&Key::from_name("his"), &META);
+        // one message of ~650 KB (a full reservoir of 65536 sampled values; without sampling a histogram is written in
+        // messages of at most one 64-value block, which the kernel sends atomically): far more than a unix socket buffer holds
+        for _ in 0..70_000 {
+            h.record(1234.5678);
+        }
+        res.transitions += 1;
+        // the agent: accepts, but reads nothing during the stall
+        let mut conns: Vec<(std::os::unix::net::UnixStream, Vec<u8>, bool)> = Vec::new();
+        let t0 = Instant::now();
+        let mut second_batch = false;
+        let mut last_byte = Instant::now();
+        loop {
+            while let Ok((c, _)) = l.accept() {
+                c.set_nonblocking(true).unwrap();
+                conns.push((c, Vec::new(), false));
+                last_byte = Instant::now();
+            }
+            let stalled = t0.elapsed() < Duration::from_millis(stall_ms);
+            if !stalled {
+                if !second_batch {
+                    // enough later traffic to run past anything a cut-off frame announced
+                    second_batch = true;
+                    for _ in 0..70_000 {
+                        h.record(8765.4321);
+                    }
+                    res.transitions += 1;
+                }
+                for (c, buf, eof) in conns.iter_mut() {
+                    if *eof {
+                        continue;
+                    }
+                    let mut tmp = [0u8; 65536];
+                    loop {
+                        match c.read(&mut tmp) {
+                            Ok(0) => {
+                                *eof = true;
+                                break;
+                            }
+                            Ok(n) => {
+                                buf.extend_from_slice(&tmp[..n]);
+                                last_byte = Instant::now();
+                            }
+                            Err(_) => break,
+                        }
+                    }
+                }
+                if second_batch && last_byte.elapsed() > Duration::from_millis(700) {
+                    break;
+                }
+            }
+            if t0.elapsed() > Duration::from_secs(30) {
+                break;
+            }
+            std::thread::sleep(Duration::from_millis(5));
+        }
+        if std::env::var("C10_DEBUG").is_ok() {
+            for (ci, (_, buf, eof)) in conns.iter().enumerate() {
+                eprintln!("conn {}: {} bytes eof={} first frame len {:?}", ci, buf.len(), eof, buf.get(..4).map(|b| u32::from_le_bytes([b[0], b[1], b[2], b[3]])));
+            }
+        }
+        // judge every stream
+        let mut whole = 0usize;
+        let mut vals = 0usize;
+        for (ci, (_, buf, eof)) in conns.iter().enumerate() {
+            let mut b: &[u8] = buf;
+            let mut fi = 0;
+            while !b.is_empty() {
+                let cut = b.len() < 4 || b.len() - 4 < u32::from_le_bytes([b[0], b[1], b[2], b[3]]) as usize;
+                if cut {
+                    if !*eof {
+                        res.violation("stream-framing-corrupted", format!("connection {} is still open and idle but ends in the middle of a frame ({} bytes of frame {}) (write timeout {} ms, agent stalled {} ms)", ci, b.len(), fi, timeout_ms, stall_ms), cfg.clone());
+                    }
+                    break;
+                }
+                let n = u32::from_le_bytes([b[0], b[1], b[2], b[3]]) as usize;
+                match statsd::parse_message(&b[4..4 + n]) {
+                    Ok(m) if m.name == "his" && !m.values.is_empty() && m.values.iter().all(|v| v == "1234.5678" || v == "8765.4321") => {
+                        whole += 1;
+                        vals += m.values.len();
+                    }
+                    Ok(m) => {
+                        res.violation("stream-framing-corrupted", format!("connection {} frame {}: message {} with {} values is not what was recorded", ci, fi, m.name, m.values.len()), cfg.clone());
+                        break;
+                    }
+                    Err(e) => {
+                        res.violation("stream-framing-corrupted", format!("connection {} frame {} (announced length {}): not a well-formed message: {} (write timeout {} ms, agent stalled {} ms: a frame cut short by the timeout must not be continued on the same connection)", ci, fi, n, e.chars().take(120).collect::<String>(), timeout_ms, stall_ms), cfg.clone());
+                        break;
+                    }
+                }
+                b = &b[4 + n..];
+                fi += 1;
+            }
+        }
+        if whole == 0 {
+            res.violation("nothing-delivered-after-agent-resumed", format!("{} connection(s), no whole frame received although the agent read everything for 700 ms after it resumed", conns.len()), cfg.clone());
+        }
+        states.add(&(conns.len().min(3), whole.min(3), vals > 65_536));
+        drop(rec);
+        let _ = std::fs::remove_file(&path);
+    }
+    res.states = states.len();
+    res.distinct_outcomes = states.len();
+    res.sample(json!({"history": "70000 values recorded into a sampling reservoir of 65536 (one ~650 KB message per flush); agent accepts and stalls 1.2 s (write timeout 100 ms); 70000 more values; agent reads all connections", "expected": "every stream = whole well-formed frames; a cut-off frame only at the end of a closed stream"}));
+}
+
 fn parts(ctx: &Ctx) -> Vec<PartSpec> {
     let e1 = |s: &str, pb: u64| PartSpec::new(&format!("e1-{}-pb{}", s, pb), json!({"e1": s, "pb": pb})).cpus("0");
-    let mut v = vec![PartSpec::new("e4-sockets", json!({"e4": true})).budget(120.0), PartSpec::new("e3-sampling-on", json!({"sampling": true}))];
+    let mut v = vec![PartSpec::new("e4-sockets", json!({"e4": true})).budget(120.0), PartSpec::new("e3-sampling-on", json!({"sampling": true})), PartSpec::new("e4-stalled-agent", json!({"stalled": true})).budget(120.0)];
     let d = if ctx.quick() { 5 } else { 7 };
     v.push(PartSpec::new(&format!("e3-seq-d{}-conservative-dist", d), json!({"seq": d, "aggressive": false, "as_dist": true})).budget(if ctx.quick() { 150.0 } else { 2400.0 }));
     v.push(PartSpec::new(&format!("e3-seq-d{}-aggressive-hist", d - 1), json!({"seq": d - 1, "aggressive": true, "as_dist": false})).budget(if ctx.quick() { 150.0 } else { 2400.0 }));
@@ -800,6 +941,10 @@ fn run(ctx: &Ctx, spec: &PartSpec) -> PartResult {
     let mut res = PartResult::new(&spec.name, "");
     if spec.arg["e4"].as_bool() == Some(true) {
         e4(ctx, &mut res);
+        return res;
+    }
+    if spec.arg["stalled"].as_bool() == Some(true) {
+        stalled_agent_part(ctx, &mut res);
         return res;
     }
     if spec.arg["sampling"].as_bool() == Some(true) {
@@ -830,7 +975,7 @@ fn main() {
     driver::main(CheckDef {
         prop: "C10",
         level: "model_checking",
-        rule: "E1: every SC interleaving (pb-bounded; 1 registry shard) of updater threads (increment / absolute / set / record through real handles) with a flusher thread driving the real State::flush + PayloadWriter, one initial and three final sequential flushes; every payload parsed by an independent DogStatsD parser; oracle: delta conservation, per-flush upper bound, zero discipline, most-recent gauge, histogram exactly-once, timestamp per documented mode; E3: every sequence (depth 5 quick / 7 thorough) over {flush, ci.increment(3), ci.increment(0), ca.absolute(next), gau.set, gau.increment, gau.decrement, his.record} + 2 final flushes, sequentially, against an exact reference model of what each flush must send; E4: transports {unix stream, unixgram, udp} x modes x prefix/labels/distribution configurations through the real forwarder thread into real sockets (framing, one message per datagram/frame, timestamp); distinct = distinct send sequences / received message sets",
+        rule: "E1: every SC interleaving (pb-bounded; 1 registry shard) of updater threads (increment / absolute / set / record through real handles) with a flusher thread driving the real State::flush + PayloadWriter, one initial and three final sequential flushes; every payload parsed by an independent DogStatsD parser; oracle: delta conservation, per-flush upper bound, zero discipline, most-recent gauge, histogram exactly-once, timestamp per documented mode; E3: every sequence (depth 5 quick / 7 thorough) over {flush, ci.increment(3), ci.increment(0), ca.absolute(next), gau.set, gau.increment, gau.decrement, his.record} + 2 final flushes, sequentially, against an exact reference model of what each flush must send; E4: transports {unix stream, unixgram, udp} x modes x prefix/labels/distribution configurations through the real forwarder thread into real sockets (framing, one message per datagram/frame, timestamp), and a fault history on the stream transport (agent stalls, a payload larger than the socket buffer is cut short by the write timeout, agent resumes: every stream received is whole well-formed frames); distinct = distinct send sequences / received message sets",
         assumptions: &["E1: sequential consistency; the flush is driven synchronously (Driver::flush_once) instead of by the sleeping forwarder thread", "E4: the forwarder thread's flush cadence is timing-driven (40 ms); only framing/content/timestamps are judged there, with a 20 s timeout reported as a violation of 'the agent socket receives these messages'"],
         parts,
         run,
